@@ -165,6 +165,7 @@ pub fn parse_query(q: &Value) -> OwnedQuery {
 
 /// run `f` with the named handle built from `src` (cache: written to memory and parsed back)
 pub fn with_handle<T>(name: &str, src: &[u8], f: impl FnOnce(&Handle<'_>) -> T) -> Result<T, String> {
+    crate::disturb();
     match name {
         "mapper" => Ok(f(&Handle::Mapper(ProguardMapper::new(ProguardMapping::new(src))))),
         "mapperp" => Ok(f(&Handle::Mapper(ProguardMapper::new_with_param_mapping(ProguardMapping::new(src), true)))),
